@@ -1108,7 +1108,7 @@ func main() {
 			if tier == "thorough" {
 				return 17 * time.Minute
 			}
-			return 70 * time.Second
+			return 100 * time.Second // ~15 s on an idle 16-core machine; the margin is for a loaded one
 		},
 	})
 }
